@@ -119,6 +119,15 @@ def one_case(cls, opts, method, n, order, xv):
     txt = compare(lib, model, ratio, exps)
     if txt:
         return 'bad', txt
+    if n % 2 == 1 and order % 2 == 0:
+        # the same request with numpy integers for n and order: the same sequence, bit for bit
+        try:
+            lib2 = list(lib_generator(cls, opts)(xl, method, np.int64(n), np.int32(order)))
+        except Exception as e:
+            return 'bad', 'with numpy integers for n and order: raised %s: %s' % (type(e).__name__, e)
+        if len(lib2) != len(lib) or any(np.asarray(a).tobytes() != np.asarray(b).tobytes() for a, b in zip(lib, lib2)):
+            return 'bad', 'with numpy integers for n and order: %d steps %r, with Python integers %d steps' % (
+                len(lib2), [np.asarray(a).tolist() for a in lib2[:2]], len(lib))
     return 'ok', len(lib)
 
 
